@@ -80,7 +80,7 @@ def run(rep, tier="quick", replay=None, evidence_dir=None):
     KEYS = set(spec["reserved_keys"])
     NAMES = spec["codec_names"]
     rep.rule("C04.R1", "magic bytes agree between writer constant, reader constant and the specification")
-    rep.rule("C04.R2", "header order magic/metadata/marker on both sides; metadata key sets agree; avro.codec only for non-null; reserved prefix guarded")
+    rep.rule("C04.R2", "header order magic/metadata/marker on both sides; metadata key sets agree; reserved prefix guarded")
     rep.rule("C04.R3", "block order count/size/payload/marker on both sides")
     rep.rule("C04.R4", "codec name tables are inverse bijections over the specification's names")
 
